@@ -19,13 +19,13 @@ import (
 	"github.com/flamego/flamego/verifharness/internal/evid"
 )
 
-const rule = "injector level: case = 1..3 nested injectors and a history of 2..16 operations over {Map, MapTo, Set (re-registration included), Invoke of a reflect.MakeFunc-built function with 0..4 parameters and 0..2 results over a 17-type universe (structs, pointers, named basics, channels, a named slice, map and func type whose values cannot be compared with ==, four interfaces - one of them sealed by an unexported method - and the empty interface, with the implements relation of the language), Invoke of one of six fast-invoker types and of its plain twin, Apply to a reflect.StructOf-built struct with tagged and untagged fields}; registrations and invocations are interleaved. " +
+const rule = "injector level: case = 1..3 nested injectors and a history of 2..16 operations over {Map, MapTo, Set (re-registration included; values incl. typed nils), Invoke of a reflect.MakeFunc-built function with 0..4 parameters and 0..2 results over a 17-type universe (structs, pointers, named basics, channels, a named slice, map and func type whose values cannot be compared with ==, four interfaces - one of them sealed by an unexported method - and the empty interface, with the implements relation of the language), Invoke of one of six fast-invoker types and of its plain twin, Apply to a reflect.StructOf-built struct with tagged and untagged fields}; registrations and invocations are interleaved. " +
 	"Oracle: an own scope-chain resolver (exact in scope, else the set of values registered in that scope under keys implementing the interface - any member is legal -, else parent); unresolvable: the error names the type and the body ran 0 times; resolvable: the body ran once with legal arguments (pointer/channel identity, == otherwise) and the results come back DeepEqual; fast twin == plain twin. " +
 	"framework level (second check): request scope before application scope before an outer parent, request-scoped values visible to later handlers of that request only, re-registration of Context / http.ResponseWriter / *http.Request during a request seen identically by reflective handlers and by the built-in fast wrappers, unresolvable parameter -> panic naming the type and no later handler runs. " +
 	"non-trivial = a case with a parameter resolved through an implementor or a parent scope, or a re-registration followed by a resolution, or an unresolvable parameter; distinct by case text"
 
 var assumptions = []string{
-	"generators respect the documented preconditions: no nil values, MapTo only with implementing values, Set only with assignable values",
+	"generators respect the documented preconditions: no untyped nil values (typed nil pointers, channels, slices, maps and funcs are values like any other), MapTo only with implementing values, Set only with assignable values",
 	"when several registrations of one scope implement an interface, any of them is a legal resolution (map iteration order is not part of the contract)",
 }
 
@@ -41,6 +41,7 @@ type Op struct {
 	Tag   []bool   `json:"tag,omitempty"`  // apply: field tagged?
 	Out   int      `json:"out,omitempty"`  // invoke: number of results
 	Fast  int      `json:"fast,omitempty"` // fast: which of F0..F5
+	Nil   bool     `json:"nil,omitempty"`  // map/mapto/set: the value is the typed nil of T
 }
 
 type Case struct {
@@ -113,7 +114,7 @@ func checkCase(c Case) (out evid.Outcome) {
 		inj, ms := injs[op.Scope], scopes[op.Scope]
 		switch op.K {
 		case "map":
-			v := mkValue(op.T, nextID)
+			v := mkValueNil(op.T, nextID, op.Nil)
 			nextID++
 			for _, e := range ms.entries {
 				if e.key == universe[op.T] {
@@ -123,7 +124,7 @@ func checkCase(c Case) (out evid.Outcome) {
 			inj.Map(v.Interface())
 			ms.set(universe[op.T], v)
 		case "mapto":
-			v := mkValue(op.T, nextID)
+			v := mkValueNil(op.T, nextID, op.Nil)
 			nextID++
 			var ptr interface{}
 			switch op.As {
@@ -146,7 +147,7 @@ func checkCase(c Case) (out evid.Outcome) {
 			inj.MapTo(v.Interface(), ptr)
 			ms.set(universe[op.As], v)
 		case "set":
-			v := mkValue(op.T, nextID)
+			v := mkValueNil(op.T, nextID, op.Nil)
 			nextID++
 			key := universe[op.As]
 			sv := v
@@ -576,6 +577,10 @@ func genCase(t *rapid.T) Case {
 				op.In = append(op.In, typeNames[rapid.IntRange(0, len(typeNames)-1).Draw(t, "ft")])
 				op.Tag = append(op.Tag, rapid.IntRange(0, 3).Draw(t, "tag") > 0)
 			}
+		}
+		if (op.K == "map" || op.K == "mapto" || op.K == "set") && nillable(op.T) {
+			// a typed nil (an anonymous visitor's *User) is a value like any other
+			op.Nil = rapid.IntRange(0, 5).Draw(t, "typednil") == 0
 		}
 		c.Ops = append(c.Ops, op)
 	}
